@@ -127,12 +127,15 @@ class Prober:
                 return v
         return None
 
-    def history(self, n=4):
-        """complete, in-domain syscalls of the same thread that happened BEFORE the one under test"""
+    def history(self, n=4, same=None):
+        """complete, in-domain syscalls of the same thread that happened BEFORE the one under test; `same`: the decoder
+        under test itself is among them, with other arguments (a result remembered per code must not come back)"""
         names = sorted(k for k in AUDIT if k.startswith('BSC_') and AUDIT[k].get('cls') == 'SYS0')
         out = []
-        for _ in range(n):
+        for i in range(n):
             nm = 'BSC_umask' if self.rnd.random() < 0.35 else self.rnd.choice(names + ['BSC_sys_fcntl', 'BSC_setsid'])
+            if same is not None and same in AUDIT and i in (0, n - 1):
+                nm = same
             S = list(self.w.words(nm, 'start'))
             if nm == 'BSC_umask':
                 S[0] = self.rnd.choice([0o22, 0o77, 0o777, 0o7777, (1 << 64) - 1])
@@ -208,7 +211,7 @@ def label(pr, name, S, E, paths, nalt=2):
         p2[j] = paths[j] + b'Z'
         diff('l', j, S, E, p2)
     # the rendering is a function of the operation's own records: earlier operations of the thread change nothing
-    hist = pr.history()
+    hist = pr.history(same=name)
     t_hist = pr.render(name, S, E, paths, prefix=hist)
     history_dep = t_hist != base
     params = []
